@@ -7,7 +7,25 @@ prop, mod, title = sys.argv[1:4]
 pairs = [a.split("=", 1) for a in sys.argv[4:]]
 L = "/verif/lean/"
 src = open(L + mod.replace(".", "/") + ".lean").read()
+# "C01x" targets the extension file Properties/C01x.lean (same namespace Sipsp.C01; for theorems from layers that import
+# the property file itself); it is created on first use
+ext = prop.endswith("x")
+ns = prop[:-1] if ext else prop
 path = L + "Sipsp/Properties/%s.lean" % prop
+import os
+if ext and not os.path.exists(path):
+    open(path, "w").write("""/-
+  Property %s - extension file: theorems of this property that are proved in layers which themselves import
+  Sipsp/Properties/%s.lean (message-level compositions, audit lemmas). Same namespace as the main file; the check
+  audits both files together.
+-/
+import Sipsp.Properties.%s
+
+namespace Sipsp.%s
+open Sipsp
+
+end Sipsp.%s
+""" % (ns, ns, ns, ns, ns))
 s = open(path).read()
 if ("import " + mod + "\n") not in s:
     imps = list(re.finditer(r"^import .*\n", s, flags=re.M))
@@ -25,7 +43,7 @@ for new, orig in pairs:
         out.append(doc)
     out.append("theorem %s : type_of%% @Sipsp.%s := @Sipsp.%s" % (new, orig, orig))
     out.append("")
-end = "end Sipsp.%s" % prop
+end = "end Sipsp.%s" % ns
 k = s.rindex(end)
 s = s[:k] + "\n".join(out).lstrip("\n") + "\n" + s[k:]
 open(path, "w").write(s)
